@@ -81,7 +81,8 @@ def rule_join_complete(ctx):
             mt = [t for t in c.nodes if t.kind == "test" and isinstance(t.ast, ast.Compare) and unparse(t.ast.left) == "error_type" and unparse(t.ast.comparators[0]).endswith("MemberIdRequired")]
             ok = len(mt) == 1
             if ok:
-                tsucc = [m for m, l in mt[0].succ if l == "T"]
+                l_req = "F" if isinstance(mt[0].ast.ops[0], (ast.IsNot, ast.NotEq)) else "T"     # the arm meaning MEMBER_ID_REQUIRED
+                tsucc = [m for m, l in mt[0].succ if l == l_req]
                 # remove T edge: j must be unreachable from s ...
                 avoid = set(tsucc)
                 ok = j not in c.reachable([s], avoid=avoid)
@@ -93,7 +94,7 @@ def rule_join_complete(ctx):
                         h = c.loop_head(wl[-1])
                         body = c.loop_body(h)
                         ds = [d for d in local_defs(c, flag) if d in body]
-                        ok = bool(ds) and all((const_value(def_value(d)) is False) or (const_value(def_value(d)) is True and c.dominated_by_branch(mt[0], "T", d)) for d in ds) \
+                        ok = bool(ds) and all((const_value(def_value(d)) is False) or (const_value(def_value(d)) is True and c.dominated_by_branch(mt[0], l_req, d)) for d in ds) \
                             and any(const_value(def_value(d)) is False and c.dominates(d, s) for d in ds)
                         # and nothing but the loop leads back to the request
                         ok = ok and j not in c.reachable([s], avoid=[h])
@@ -428,6 +429,57 @@ def rule_coordination_loop(ctx):
     ctx.ob(R, fk, fk.node, la == ["CoordinationType.GROUP", "self.group_id"], f"coordinator lookup for {la}", text="lookup-args")
 
 
+
+def rule_snapshot(ctx):
+    R = "snapshot"
+    ctx.rep.rule(R, "a stable member does not disturb the group itself: the metadata listener requests a rejoin iff the recorded snapshot "
+                    "differs from the snapshot of the topics the group is interested in, so the recorded snapshot must be recomputed whenever "
+                    "those topics are replaced -- every store of a (non-None) _group_subscription is followed on every normal path to the "
+                    "function's exit by `_metadata_snapshot = _get_metadata_snapshot()` (whatever the kind of subscription); the snapshot is "
+                    "computed from _group_subscription; the listener compares and then records the snapshot it computed")
+    BASE = "aiokafka.consumer.group_coordinator.BaseCoordinator"
+    n = 0
+    for q, fi in sorted(ctx.repo.funcs.items()):
+        if not q.startswith("aiokafka.consumer.group_coordinator.") or fi.name == "__init__":
+            continue
+        if "_group_subscription" not in unparse(fi.node):
+            continue
+        c = ctx.cfg(fi)
+        for st in c.stores(attr="_group_subscription"):
+            if unparse(st.ast) != "self._group_subscription":
+                continue
+            v = getattr(st.stmt, "value", None)
+            if v is None or (isinstance(v, ast.Constant) and v.value is None):
+                continue
+            n += 1
+            snaps = [x for x in c.stores(attr="_metadata_snapshot") if unparse(x.ast) == "self._metadata_snapshot"
+                     and unparse(getattr(x.stmt, "value", None) or ast.Constant(None)) == "self._get_metadata_snapshot()"]
+            leak = c.exit in c.reachable([st], avoid=set(snaps), exc=False)
+            ctx.ob(R, fi, st, not leak, "the topics the group watches are replaced but a normal path to the exit does not recompute the recorded metadata snapshot: "
+                                        "the next metadata update that changes nothing looks like a change and the member re-joins a stable group", text="snapshot-after-group-subscription")
+    ctx.anchor(n >= 1, "store of a non-None _group_subscription")
+    fs = ctx.fn(f"{BASE}._get_metadata_snapshot")
+    loops = [x for x in ast.walk(fs.node) if isinstance(x, (ast.For, ast.comprehension)) and unparse(x.iter) == "self._group_subscription"]
+    ctx.ob(R, fs, fs.node, len(loops) == 1 and "partitions_for_topic" in unparse(fs.node), "the snapshot is not computed over the group's topics from the cluster metadata", text="snapshot-source")
+    fh = ctx.fn(f"{BASE}._handle_metadata_update")
+    ch = ctx.cfg(fh)
+    cmp_ = [t for t in ch.nodes if t.kind == "test" and isinstance(t.ast, ast.Compare) and isinstance(t.ast.ops[0], (ast.NotEq, ast.Eq))
+            and "self._metadata_snapshot" in {unparse(t.ast.left), unparse(t.ast.comparators[0])}]
+    ok = len(cmp_) == 1
+    if ok:
+        t = cmp_[0]
+        diff = "T" if isinstance(t.ast.ops[0], ast.NotEq) else "F"
+        arm = ch.reachable([m for m, l in t.succ if l == diff], include_src=True)
+        other = ({unparse(t.ast.left), unparse(t.ast.comparators[0])} - {"self._metadata_snapshot"})
+        rj = [x for x in arm if x.kind == "call" and call_attr(x.ast) == "_on_metadata_change"]
+        rec = [x for x in arm if x.kind == "store" and unparse(x.ast) == "self._metadata_snapshot" and unparse(x.stmt.value) in other]
+        same = ch.reachable([m for m, l in t.succ if l != diff and l != "exc"], include_src=True)
+        ok = bool(rj) and bool(rec) and not any(x.kind == "call" and call_attr(x.ast) == "_on_metadata_change" for x in same if x not in arm)
+        fo = ctx.fn(f"{GC}._on_metadata_change")
+        ok = ok and any(isinstance(x, ast.Call) and call_attr(x) == "request_rejoin" for x in ast.walk(fo.node))
+    ctx.ob(R, fh, fh.node, ok, "the metadata listener does not `rejoin and record the new snapshot iff it differs from the recorded one`", text="listener")
+
+
 def run(ctx):
     rep = ctx.rep
     rep.explanation = ("C06 structural clauses: JoinGroup built after the assignor loop from the full protocol list, retry only on MEMBER_ID_REQUIRED; "
@@ -439,5 +491,6 @@ def run(ctx):
     rule_rejoin_reset(ctx)
     rule_heartbeat(ctx)
     rule_coordination_loop(ctx)
+    rule_snapshot(ctx)
     rep.nd("convergence / 'no further rebalance once quiet' (liveness over fault sequences)")
     rep.nd("coverage of every partition by the union of assignments (depends on the assignors, C14)")
